@@ -39,13 +39,11 @@ structure World where
   v : Validators
 
 def nlookup {β} (l : List (Nat × β)) (k : Nat) : Option β :=
-  match l.find? (fun p => p.1 == k) with
-  | some p => some p.2
-  | none => none
+  (l.find? (fun p => p.1 == k)).map (·.2)
 
+/-- functional update (newest binding first; the order is never observed) -/
 def nset {β} (l : List (Nat × β)) (k : Nat) (v : β) : List (Nat × β) :=
-  if l.any (fun p => p.1 == k) then l.map (fun p => if p.1 == k then (k, v) else p)
-  else l ++ [(k, v)]
+  (k, v) :: l.filter (fun p => p.1 != k)
 
 def World.obj (w : World) (h : Nat) : Option (Nat × TObj) := do
   let id ← nlookup w.handles h
@@ -87,7 +85,7 @@ def World.assocNew (w : World) (nsId : Nat) (name : String) : World × Nat :=
 inductive Res where
   | ok (out : Bytes)
   | err (cls : String) (partialOut : Bytes)
-  | panic
+  | panic (site : String)
   | fuel
   | unsupported
   deriving Repr
@@ -95,48 +93,55 @@ inductive Res where
 def Res.str : Res → String
   | .ok b => "ok " ++ hexOf b
   | .err c b => "err:" ++ c ++ " " ++ hexOf b
-  | .panic => "panic"
+  | .panic _ => "panic"
   | .fuel => "model-out-of-fuel"
   | .unsupported => "unsupported"
+
+/-- failure branch of escapeTemplate: `t.escapeErr = err; t.Tree = nil` for `t = set[name]`; the escaper
+    keeps whatever the failed analysis left in it (the text/template tree stays in place) -/
+def markFailed (w : World) (nsId : Nat) (name : String) (e : Esc) (code : ErrCode) : World :=
+  let ns := w.ns nsId
+  let w := w.setNs nsId { ns with esc := e }
+  match alookup ns.set name with
+  | some oid =>
+    match nlookup w.objs oid with
+    | some o => w.setObj oid { o with status := .failed code, treeNil := true }
+    | none => w
+  | none => w
+
+/-- success branch of escapeTemplate: the committed text set and escaper are installed;
+    `t.escapeErr = errEscapeOK; t.Tree = t.text.Tree` for `t = set[name]` -/
+def markOk (w : World) (nsId : Nat) (name : String) (text' : TextSet) (e' : Esc) : World :=
+  let ns := w.ns nsId
+  let w := w.setNs nsId { ns with esc := e', text := text' }
+  match alookup ns.set name with
+  | some oid =>
+    match nlookup w.objs oid with
+    | some o =>
+      let tn := if o.registered then (match text'.lookup name with | some (some _) => false | _ => true) else true
+      w.setObj oid { o with status := .ok, treeNil := tn }
+    | none => w
+  | none => w
+
+/-- the error escapeTemplate reports for a final context -/
+def finalError (c : Ctx) : Option ErrCode :=
+  if c.err.isSome then c.err else if c.state != .text then some .endContext else none
 
 /-- escapeTemplate(tmpl, node, name): `inl res` = outcome to report (panic/fuel), `inr (w, err)` -/
 def escapeTemplateTop (w : World) (nsId : Nat) (name : String) : Res ⊕ (World × Option ErrCode) :=
   let ns := w.ns nsId
   let env : Env := { text := ns.text, nsHas := fun n => (alookup ns.set n).isSome, csp := ns.csp, v := w.v }
   match escapeTree env w.fuel ns.esc {} name with
-  | .panic _ => .inl .panic
+  | .panic m => .inl (.panic m)
   | .fuel => .inl .fuel
   | .ok (e, c, _) =>
-    let err : Option ErrCode :=
-      if c.err.isSome then c.err else if c.state != .text then some .endContext else none
-    match err with
-    | some code =>
-      let ns := { ns with esc := e }
-      match alookup ns.set name with
-      | some oid =>
-        match nlookup w.objs oid with
-        | some o =>
-          -- t.escapeErr = err; t.text.Tree = nil; t.Tree = nil
-          let ns := if o.registered then { ns with text := ns.text.set name none } else ns
-          let w := w.setNs nsId ns
-          .inr (w.setObj oid { o with status := .failed code, treeNil := true }, some code)
-        | none => .inr (w.setNs nsId ns, some code)
-      | none => .inr (w.setNs nsId ns, some code)
+    match finalError c with
+    | some code => .inr (markFailed w nsId name e code, some code)
     | none =>
       match commit ns.text e with
-      | .panic _ => .inl .panic
+      | .panic m => .inl (.panic m)
       | .fuel => .inl .fuel
-      | .ok (text', e') =>
-        let ns := { ns with esc := e', text := text' }
-        let w := w.setNs nsId ns
-        match alookup ns.set name with
-        | some oid =>
-          match nlookup w.objs oid with
-          | some o =>
-            let tn := if o.registered then (match text'.lookup name with | some (some _) => false | _ => true) else true
-            .inr (w.setObj oid { o with status := .ok, treeNil := tn }, none)
-          | none => .inr (w, none)
-        | none => .inr (w, none)
+      | .ok (text', e') => .inr (markOk w nsId name text' e', none)
 
 /-- `t.text.Execute(wr, data)` -/
 def textExecute (w : World) (o : TObj) (data : Value) : Res :=
@@ -148,6 +153,7 @@ def textExecute (w : World) (o : TObj) (data : Value) : Res :=
     let r := walkList ns.text 0 w.fuel data data [] tr.root
     match r.err with
     | none => .ok r.out
+    | some .nilTree => .panic "nil pointer dereference: execution of a called template whose Tree is nil"
     | some .exec => .err "exec" r.out
     | some .depth => .err "exec-depth" []
     | some .unsupported => .unsupported
@@ -197,7 +203,7 @@ def apiExecuteTemplate (w : World) (h : Nat) (name : String) (data : Value) : Wo
           let textTreeNil := if t.registered then
               (match ns.text.lookup name with | some (some _) => false | _ => true) else true
           if textTreeNil then (w, .err "incomplete" [])
-          else if (ns.text.lookup name).isNone then (w, .panic)   -- "template escaping out of sync"
+          else if (ns.text.lookup name).isNone then (w, .panic "template escaping out of sync")
           else if st == .unset then
             match escapeTemplateTop w o.ns name with
             | .inl r => (w, r)
@@ -288,8 +294,9 @@ def apiLookup (w : World) (h : Nat) (name : String) (h' : Nat) : World × String
     match alookup (w.ns o.ns).set name with
     | none => (w, "nil")
     | some tid =>
-      match w.handles.find? (fun p => p.2 == tid) with
-      | some p => (w.bind h' tid, "same:" ++ toString p.1)
+      -- the harness reports the smallest handle already bound to this object
+      match ((w.handles.filter (fun p => p.2 == tid)).map (·.1)).min? with
+      | some k => (w.bind h' tid, "same:" ++ toString k)
       | none => (w.bind h' tid, "new")
 
 def insertSorted (x : String) : List String → List String
